@@ -58,7 +58,7 @@ def walk(ctx, case) -> None:
     scale = float(np.max(np.abs(truth))) or 1.0
     slack = 0.0 if exact else sut.ulp_slack(n, scale)
     gslack = sut.gap_tol(n, scale)
-    game = sut.object_for_case(ctx, case, comp)
+    game = sut.object_for_case(ctx, case, comp, p_reuse=1.0 if case.get("_force_reuse") else 0.5)
     size = 1 << n
     try:
         sut.set_knowledge(game, values, sorted(minimal_masks(n)))
@@ -188,6 +188,13 @@ def run(ctx) -> None:
     # guaranteed minimum, independent of the time budget: one env-level run
     env_episodes(ctx, {"n": 3, "generator": "noisy_factory", "computer": "superadditive_cached", "gap": "exploitability",
                        "seed": rng.randint(0, 10**6), "episodes": 2, "scale": 1.0, "offset": 0.0, "kind": "env"})
+    # guaranteed minimum: the same game objects walked again for other hidden games (low values first), SAM computers included
+    for comp0 in ("sam_apx_1", "sam_apx_10", "superadditive_cached"):
+        for fam0 in (("sam_offset_int", "sam_int", "sam_float") if comp0.startswith("sam") else ("int_neg", "int", "float")):
+            v0, e0 = (gen.sam_game if comp0.startswith("sam") else gen.sa_game)(rng, 4, fam0)
+            order0 = gen.explorable(4)
+            rng.shuffle(order0)
+            walk(ctx, {"n": 4, "family": fam0, "values": v0, "exact": e0, "computer": comp0, "toggles": order0[:6], "_force_reuse": True})
     # n = 3: every edge, both directions, all six computers
     for comp in all_comps:
         for _ in range(1 if quick else 3):
